@@ -447,6 +447,31 @@ Theorem C08_after_flags_long_space_vs_eq_line : forall c0 bin chs l v a r tokA t
 Proof. exact after_flags_long_space_vs_eq_top. Qed.
 Print Assumptions C08_after_flags_long_space_vs_eq_line.
 
+Theorem C08_flags_prefix_congr_eq : forall c X Y,
+  (forall t vaf, possible_subcommand c (45 :: t) vaf = None) ->
+  forall chs ls st,
+  Forall (fun ch => ch < 128 /\ ch <> 45 /\ exists a, get_short c ch = Some a /\ a_takes_value a = false) chs ->
+  l_trailing ls = false -> l_pst ls = PSValuesDone -> no_hyphen_pos c (l_pos ls) -> fs_skip st = 0 ->
+  (forall ls' st', l_trailing ls' = false -> l_pst ls' = PSValuesDone -> l_pos ls' = l_pos ls -> fs_skip st' = 0 ->
+     parse_loop c X ls' st' = parse_loop c Y ls' st') ->
+  parse_loop c (map (fun ch => [45; ch]) chs ++ X) ls st = parse_loop c (map (fun ch => [45; ch]) chs ++ Y) ls st.
+Proof. exact flags_prefix_congr_eq. Qed.
+Print Assumptions C08_flags_prefix_congr_eq.
+
+Theorem C08_after_flags_long_respell : forall c chs l1 l2 v a tokA tokB rest ls st,
+  (forall t vaf, possible_subcommand c (45 :: t) vaf = None) ->
+  Forall (fun ch => ch < 128 /\ ch <> 45 /\ exists a, get_short c ch = Some a /\ a_takes_value a = false) chs ->
+  l_trailing ls = false -> l_pst ls = PSValuesDone -> no_hyphen_pos c (l_pos ls) -> fs_skip st = 0 ->
+  is_escape tokA = false -> is_escape tokB = false ->
+  possible_subcommand c tokA false = None -> possible_subcommand c tokB false = None ->
+  to_long tokA = Some (l1, true, v) -> to_long tokB = Some (l2, true, v) ->
+  (is_nil l1 && negb (is_some v)) = false -> (is_nil l2 && negb (is_some v)) = false ->
+  lookup_long c l1 = Some a -> lookup_long c l2 = Some a ->
+  parse_loop c (map (fun ch => [45; ch]) chs ++ tokA :: rest) ls st =
+  parse_loop c (map (fun ch => [45; ch]) chs ++ tokB :: rest) ls st.
+Proof. exact after_flags_long_respell. Qed.
+Print Assumptions C08_after_flags_long_respell.
+
 (** observation: the success hypothesis is needed (different error kinds for a rejected value) *)
 Theorem C08_spelling_needs_success_witness : exists c0 tokA tokB v rest,
   out_kind (parse_top c0 ([112] :: tokA :: rest)) = Some EInvalidUtf8 /\
